@@ -2,22 +2,22 @@
    (Offset.Save, saveToTmp inlined) by harness/gen (translator "saveproto") — do not edit.
    One entry per file-system call in execution order; None = an error of this call is logged/ignored and
    execution continues, Some cl = the function returns after the calls cl.
-   temp file: string(tmpWithRandom) -> o.curOffsetsFile   |   tmpPath -> o.path *)
+   temp file: string(tmpWithRandom) -> o.curOffsetsFile   |   o.getTmpPath() -> o.path *)
 From Verif Require Import Base.Sx Model.FsCrash.
 
 Definition filed_save_protocol : protocol :=
-  [(OpOpen, Some []) (* offset.go:246 *);
-   (OpWrite, Some [OpRemove; OpClose]) (* offset.go:294 *);
-   (OpSync, Some [OpRemove; OpClose]) (* offset.go:301 *);
-   (OpRename, None) (* offset.go:308 *);
+  [(OpOpen, Some []) (* offset.go:244 *);
+   (OpWrite, Some [OpRemove; OpClose]) (* offset.go:292 *);
+   (OpSync, Some [OpRemove; OpClose]) (* offset.go:299 *);
+   (OpRename, None) (* offset.go:306 *);
    (OpClose, None) (* function end (deferred) *)].
 
 Definition generic_save_protocol : protocol :=
-  [(OpOpen, Some []) (* offset.go:44 *);
-   (OpWrite, Some [OpClose]) (* offset.go:52 *);
-   (OpSync, Some [OpClose]) (* offset.go:55 *);
-   (OpClose, None) (* offset.go:57 (deferred) *);
-   (OpRename, Some []) (* offset.go:65 *)].
+  [(OpOpen, Some []) (* offset.go:43 *);
+   (OpWrite, Some [OpClose]) (* offset.go:50 *);
+   (OpSync, Some [OpClose]) (* offset.go:54 *);
+   (OpClose, None) (* offset.go:54 (deferred) *);
+   (OpRename, Some []) (* offset.go:61 *)].
 
 (* offsetDB.save keeps o.mu (which guards the shared o.buf / o.jobsSnapshot) from before it builds the buffer
    until after the rename: Lock stmt 1, defer Unlock stmt 2, Unlock stmt -1, first use of o.buf/snapshotJobs stmt 3, Rename stmt 16, 1 Lock / 1 Unlock calls *)
